@@ -397,6 +397,10 @@ def run(pid, tier):
     # ---- the composed specification (Monorail.tla) stepped through real processes, state compared after every action
     import session
     session.stage(chk, bins, pid, 30 if tier == "quick" else 400, 80)
+    # ---- and the other direction: free-running concurrent invocations, their merged hook events validated as a behaviour
+    # of Monorail.tla (TLC infers the instants of the bind and of the release at exit)
+    import freerun
+    freerun.stage(chk, bins, pid, 16 if tier == "quick" else 240)
     chk.assumptions.append("session replay: a mutating invocation is held at hook points by marker files (guarded build); the steps "
                            "between two hold points are taken as one action of Monorail.tla (CpRead+CpTruncate composed)")
     return chk.finish()
@@ -404,6 +408,12 @@ def run(pid, tier):
 
 def replay(pid, path):
     obj = json.load(open(path))
+    if isinstance(obj.get("replay"), dict) and obj["replay"].get("ev") == "freerun":
+        import freerun
+        rc = freerun.replay_one(pid, obj["replay"])
+        if rc:
+            print("VIOLATION property=%s replay=%s" % (pid, path))
+        return rc
     if isinstance(obj.get("replay"), dict) and obj["replay"].get("ev") == "session":
         import session
         rc = session.replay_one(pid, obj["replay"])
